@@ -35,7 +35,13 @@ func vrEdit(a, b []byte) int {
 	return D[n*w+m]
 }
 
-func VerifC13_Graph(l0, l1, l2 int) {
+func VerifC13_Graph(l0, l1, l2 int) { vGraph(l0, l1, l2, 1) }
+
+// the same with several workers (goroutines run one after the other: what the number of workers changes
+// deterministically - which lines each one handles - is covered, their interleavings are not)
+func VerifC13_GraphWorkers(l0, l1, l2, workers int) { vGraph(l0, l1, l2, workers) }
+
+func vGraph(l0, l1, l2, workers int) {
 	lens := []int{l0, l1, l2}
 	raw := make([][]byte, 3)
 	counts := make([]int, 3)
@@ -48,7 +54,7 @@ func VerifC13_Graph(l0, l1, l2 int) {
 	for i := range seqs {
 		seqs[i] = &seqPCR{Count: counts[i], Sequence: obiseq.NewBioSequence("s", raw[i], "")}
 	}
-	buildSamplePairs(&seqs, 1)
+	buildSamplePairs(&seqs, workers)
 
 	okEdges, okSons, okStatus, okMut := true, true, true, true
 	for j := 0; j < 3; j++ {
